@@ -57,10 +57,18 @@ def case_fn(case: dict, d):
     runs = {}
     base_job = {"spec": str(spec), "package": case["package"], "core": case.get("core"), "strategy": "operationId"}
     for name, (root, seed, w) in {"h0": ("r0/proj", "0", False), "h1": ("r1/proj", "1", False), "h2": ("r2/proj", "2", False), "h3": ("r3/proj", "3", False),
-                                   "hr": ("r4/proj", "random", False), "warm": ("r5/proj", "0", True), "other-root": ("deeper/x/y/proj", "0", False)}.items():
+                                   "hr": ("r4/proj", "random", False), "warm": ("r5/proj", "0", True), "other-root": ("deeper/x/y/proj", "0", False),
+                                   "warm-same-path": ("r6/proj", "0", "same")}.items():
         job = {**base_job, "root": str(d / root)}
-        if w:
+        if w is True:
             job["warm"] = str(warm)
+        if w == "same":
+            sp = d / "spec-w.json"
+            e2e.write_spec(case["doc"], sp)
+            job["spec"] = str(sp)
+            job["warm_same_path"] = str(warm)
+        if name == "h1" and case.get("rerun"):
+            job["rerun"] = True
         runs[name] = genrun(job, seed)
     return runs
 
@@ -89,13 +97,14 @@ def check(run: Run, ctx) -> None:
     cases = []
     for i in range(ctx.budget(8, 60)):
         r = rng(f"C09:{i}")
-        o = gs.Opts(mainstream=True, max_ops=4, unions=(i % 3 == 0), multi_tags=(i % 2 == 0), streaming=(i % 4 == 0))
+        o = gs.Opts(mainstream=True, max_ops=4, unions=(i % 3 == 0), prim_unions=(i % 2 == 0), discriminators=(i % 2 == 1), multi_tags=(i % 2 == 0), streaming=(i % 4 == 0))
         doc = gs.gen_spec(r, o)
         if i % 3 == 1:
             doc = drop_undeclared_declarations(doc, r)
         pkg, core = [("pkg.client", None), ("client", "core"), ("a.b.client", "a.b.core")][i % 3]
+        # generate ; generate(force=False) is checked where no recorded finding makes it fail: embedded core (F33/F21), no duplicate ids (F19)
         cases.append({"id": f"c09-{i}", "doc": doc, "warm_doc": gs.gen_spec(rng(f"C09:warm:{i}"), gs.Opts(mainstream=True)), "package": pkg, "core": core,
-                      "undeclared_path_vars": undeclared_path_vars(doc)})
+                      "undeclared_path_vars": undeclared_path_vars(doc), "rerun": core is None})
     results = e2e.run_cases("vf.props.C09:case_fn", cases, workers=8)
     for case, res in zip(cases, results):
         if "infra_error" in res:
@@ -117,6 +126,13 @@ def check(run: Run, ctx) -> None:
             elif o["tree"] != base["tree"]:
                 diff = sorted(f for f in set(o["tree"]) | set(base["tree"]) if o["tree"].get(f) != base["tree"].get(f))
                 fails.append((name, f"{name}: {len(diff)} files differ from the PYTHONHASHSEED=0 run: {diff[:5]}"))
+        rr = res.get("h1", {}).get("rerun")
+        if rr is not None:
+            run.dist("rerun", "checked")
+            if not rr["ok"]:
+                fails.append(("rerun", f"rerun: generate; generate(force=False) on an unchanged document failed: {rr['error']}"))
+            elif rr["touched"]:
+                fails.append(("rerun", f"rerun: the no-op re-run touched files: {rr['touched'][:4]}"))
         run.dist("undeclared_path_vars", str(case["undeclared_path_vars"]))
         if not fails:
             run.sample({"id": case["id"], "package": case["package"], "files": len(base["tree"]), "runs": sorted(res)}, limit=3)
